@@ -218,6 +218,9 @@ func verifLemmaRoundTripEthernet(eth *Ethernet, b gopacket.SerializeBuffer, df g
 //@ func (t *TLS) decodeTLSRecords(data []byte, df gopacket.DecodeFeedback) error
 //@   props C19 C01
 //@   decreases len(data)
-//@ func decodeDiameterAVP(data []byte) (*AVP, error)
+//@ func decodeDiameterAVP(data []byte) (DiameterAVP, int, error)
 //@   props C19 C01
 //@   decreases len(data)
+//@   ensures result2 == nil ==> 8 <= result1 && result1 <= len(data)
+//@   loop 0: invariant len(subAVPData) < len(data)
+//@   loop 0: decreases len(subAVPData)
